@@ -39,6 +39,11 @@ def run_program(n, prog, env, acc, record=True):
             acc.tick("rejected_calls")
             continue                      # exploration continues after a refusal
         apply_ref(r, op, env)
+        if i + 1 < len(prog):
+            try:
+                c.U            # the unitary is read while the circuit is still being built: later reads must not be stale
+            except Exception:  # noqa: BLE001
+                pass
     try:
         uf = c.U_full
         u = c.U
